@@ -416,7 +416,7 @@ def r9_only_one_file_mode_creates_the_entry_point_early(cx):
         if not news:
             raise AnchorLost("BasicCreator::new opens no AtomicOutFile under ConcatMode::%s" % v["name"])
         for i, t in news:
-            o = b.origins(t["args"][0], blocks=set(r))
+            o = b.origins(t["args"][0], blocks=set(r), mut_ref_args=True)
             ext = any(x[0] == "call" and call_is(b.term(x[1]), r"new_with_extension$|with_extension$|set_extension$|with_added_extension$") for x in o)
             n += 1
             if v["name"] == "OneFile":
